@@ -194,18 +194,18 @@ async fn part_a(ctx: &mut Ctx) {
 // Part B: 3-node clusters with faults
 // ---------------------------------------------------------------------------------------------
 
-struct NodeH {
-    id: u64,
-    raft: Arc<VarpulisRaft>,
-    shared: SharedCoordinatorState,
-    log: Option<VerifLog>,
+pub struct NodeH {
+    pub id: u64,
+    pub raft: Arc<VarpulisRaft>,
+    pub shared: SharedCoordinatorState,
+    pub log: Option<VerifLog>,
     stop: Option<tokio::sync::oneshot::Sender<()>>,
     server: Option<tokio::task::JoinHandle<()>>,
 }
 
-struct Cluster {
-    nodes: Vec<Option<NodeH>>, // index = id - 1; None while down
-    addrs: Vec<String>,
+pub struct Cluster {
+    pub nodes: Vec<Option<NodeH>>, // index = id - 1; None while down
+    pub addrs: Vec<String>,
     ports: Vec<u16>,
     persistent: Option<(u64, std::path::PathBuf)>,
 }
@@ -247,7 +247,7 @@ async fn stop_node(mut n: NodeH) {
 
 impl Cluster {
     /// ports are picked free and bound a moment later: a lost race is retried with new ports
-    async fn start(persistent_node: Option<u64>, scratch: &std::path::Path) -> Cluster {
+    pub async fn start(persistent_node: Option<u64>, scratch: &std::path::Path) -> Cluster {
         for attempt in 0..8 {
             let ports: Vec<u16> = (0..3).map(|_| free_port()).collect();
             let addrs: Vec<String> = ports.iter().map(|p| format!("http://127.0.0.1:{}", p)).collect();
@@ -268,12 +268,12 @@ impl Cluster {
         }
         infra("could not start a 3-node cluster on loopback (ports)");
     }
-    fn live(&self) -> impl Iterator<Item = &NodeH> { self.nodes.iter().flatten() }
+    pub fn live(&self) -> impl Iterator<Item = &NodeH> { self.nodes.iter().flatten() }
     /// the live node that is leader with the highest term, if any
-    fn leader(&self) -> Option<(u64, u64)> {
+    pub fn leader(&self) -> Option<(u64, u64)> {
         self.live().filter_map(|n| { let m = n.raft.metrics().borrow().clone(); if m.state == openraft::ServerState::Leader { Some((m.current_term, n.id)) } else { None } }).max().map(|(t, id)| (id, t))
     }
-    async fn wait_leader(&self, secs: u64, among: &[u64]) -> (u64, u64) {
+    pub async fn wait_leader(&self, secs: u64, among: &[u64]) -> (u64, u64) {
         let t0 = Instant::now();
         loop {
             if let Some((id, t)) = self.leader() { if among.contains(&id) { return (id, t); } }
@@ -281,15 +281,15 @@ impl Cluster {
             tokio::time::sleep(Duration::from_millis(50)).await;
         }
     }
-    fn node(&self, id: u64) -> Option<&NodeH> { self.nodes[(id - 1) as usize].as_ref() }
-    async fn shutdown(self) {
+    pub fn node(&self, id: u64) -> Option<&NodeH> { self.nodes[(id - 1) as usize].as_ref() }
+    pub async fn shutdown(self) {
         verif_fault::clear();
         for n in self.nodes.into_iter().flatten() { stop_node(n).await; }
         if let Some((_, d)) = self.persistent { let _ = std::fs::remove_dir_all(d); }
     }
 }
 
-fn applied_of(n: &NodeH) -> (usize, CoordinatorState) {
+pub fn applied_of(n: &NodeH) -> (usize, CoordinatorState) {
     match verif_applied::get(&n.shared) {
         Some((idx, st)) => (idx.map(|i| i as usize + 1).unwrap_or(0), st),
         None => (0, CoordinatorState::default()),
